@@ -392,6 +392,19 @@ def main(argv):
                                (" (fails at %s)" % failing_thm) if failing_thm else ""),
                            log=pr["log"][-3000:]))
 
+    # 2b. thorough tier: independent re-check of the compiled files with coqchk
+    if tier == "thorough" and pr["rc"] == 0 and not a.replay and not os.environ.get("VERIF_NO_COQCHK"):
+        with CoqLock():
+            crc, cout, cdt = sh(["timeout", "2400", "coqchk", "-silent", "-o"] + COQ_Q + ["VerifProps." + prop], cwd=COQ, timeout=2500)
+        info["coqchk"] = dict(rc=crc, wall_s=round(cdt, 1), summary=cout[cout.find("CONTEXT SUMMARY"):][:1500] if "CONTEXT SUMMARY" in cout else cout[-800:])
+        m = re.search(r"\* Axioms:\s*(.*?)\n\s*\n\* Constants", cout, re.S)
+        ax = m.group(1).strip() if m else "?"
+        ok_ax = ax == "<none>" or all(any(al in line for al in meta["allowed_axioms"]) for line in ax.split("\n") if line.strip())
+        if crc != 0 or not ok_ax or "type-in-type: <none>" not in cout or "unsafe (co)fixpoints: <none>" not in cout \
+                or "positivity is assumed: <none>" not in cout:
+            broken.append(dict(kind="coqchk", what="coqchk does not accept the compiled development cleanly (rc=%s, axioms=%s)" % (crc, ax[:200]),
+                               log=cout[-3000:]))
+
     # 3. correspondence + oracle
     res = None
     mism_total = 0
